@@ -298,7 +298,7 @@ def _sample_worker(job):
         for k, d in check_case({"tree": node}):
             s.fail(k, {"tree": node}, d)
 
-    H.hyp_run(tree_st(max_leaves), body, n, seed)
+    H.hyp_run(tree_st(max_leaves), body, n, seed, stats=s)
     return s
 
 
